@@ -999,6 +999,14 @@ func (in *Interp) instrs(st *State, b, pred *ssa.BasicBlock, idx int, k kont) {
 			x := in.val(st, ins.X)
 			switch ins.Op {
 			case token.MUL:
+				// a load through a field / element of a definitely nil pointer: nil dereference
+				if fr, isF := x.(FieldRef); isF {
+					if _, isNil := fr.Base.(Nil); isNil {
+						st.Events = append(st.Events, Event{Kind: "panic", Note: "nil pointer dereference (." + fr.Field + ")", Pos: ins.Pos(), Stack: st.stackString()})
+						k(st, nil, true)
+						return
+					}
+				}
 				v := in.load(st, x, ins.Type(), ins.Pos())
 				if sy, ok := v.(Sym); ok && !sy.NN && in.NNField != nil {
 					if fa, ok := ins.X.(*ssa.FieldAddr); ok && in.NNField(fa.X.Type(), fieldName(fa.X.Type(), fa.Field)) {
